@@ -2,6 +2,9 @@
 #include <xtl/xany.hpp>
 
 #include "history.hpp"
+#define C06_LOCAL_PAD 4
+#include "c06_local.hpp"   // this TU's unnamed-namespace `Local` (8 bytes -> in place)
+C06TuApi c06_tu2_api();       // other_tu.cpp: a DIFFERENT type with the same name (40 bytes -> heap)
 
 #include <any>
 #include <typeinfo>
@@ -19,13 +22,19 @@ typedef pl::Tracked<5, 16, true,  true,  false, false>      BigTC;      // 24 by
 typedef pl::Tracked<6, 0,  true,  true,  false, false>      SmallTC;    //  8 bytes, copy may throw      -> in place
 typedef pl::Tracked<7, 8,  true,  false, false, false, 16>  Aligned16;  // 16 bytes, alignas(16)         -> heap
 typedef pl::Tracked<9, 0,  false, false, true,  false, 8, true> SmallNCTM;  //  8 bytes, noexcept copy but throwing move -> heap (the decision is about the MOVE constructor)
+typedef pl::OwnNew<pl::Tracked<10, 16, true, false, false, false> >  BigON;    // 24 bytes, class-specific operator new/delete -> heap (new-expression / delete-expression must match)
+typedef pl::OwnNew<pl::Tracked<11, 0,  true, false, false, false> >  SmallON;  //  8 bytes, class-specific operator new/delete -> in place (placement form)
+static_assert(sizeof(BigON) == 24 && sizeof(SmallON) == 8 && std::is_nothrow_move_constructible<BigON>::value && std::is_nothrow_move_constructible<SmallON>::value, "payload shape");
+// the tracked payload types (tag, type); int has tag 8
+#define C06_TRACKED(X) X(1, Small) X(2, TwoWords) X(3, SmallTM) X(4, Big) X(5, BigTC) X(6, SmallTC) X(7, Aligned16) X(9, SmallNCTM) X(10, BigON) X(11, SmallON)
+#define C06_TYPES(X) C06_TRACKED(X) X(8, int)
 static_assert(std::is_nothrow_copy_constructible<SmallNCTM>::value && !std::is_nothrow_move_constructible<SmallNCTM>::value, "payload shape");
 static_assert(sizeof(Small) == 8 && sizeof(TwoWords) == 16 && sizeof(Big) == 24 && sizeof(Aligned16) == 16, "payload sizes");
 
-static const int NTYPES = 10;   // 0 = empty, 1..7 and 9 tracked, 8 = int
+static const int NTYPES = 12;   // 0 = empty, 1..7 and 9..11 tracked, 8 = int
 static const char* tname(int t)
 {
-    static const char* n[] = {"empty", "Small", "TwoWords", "SmallTM", "Big", "BigTC", "SmallTC", "Aligned16", "int", "SmallNCTM"};
+    static const char* n[] = {"empty", "Small", "TwoWords", "SmallTM", "Big", "BigTC", "SmallTC", "Aligned16", "int", "SmallNCTM", "BigON", "SmallON"};
     return n[t];
 }
 
@@ -46,6 +55,7 @@ struct MV
 };
 
 static const int NOBJ = 3;
+static std::string g_types = "all";   // "all" or "base" (payload types with tag < 10): the alphabet of stored types
 
 struct World
 {
@@ -67,15 +77,9 @@ struct World
     {
         const xtl::any& x = a(i);
         if (!x.has_value()) return 0;
-        if (x.type() == typeid(Small)) return 1;
-        if (x.type() == typeid(TwoWords)) return 2;
-        if (x.type() == typeid(SmallTM)) return 3;
-        if (x.type() == typeid(Big)) return 4;
-        if (x.type() == typeid(BigTC)) return 5;
-        if (x.type() == typeid(SmallTC)) return 6;
-        if (x.type() == typeid(Aligned16)) return 7;
-        if (x.type() == typeid(int)) return 8;
-        if (x.type() == typeid(SmallNCTM)) return 9;
+#define X(TG, T) if (x.type() == typeid(T)) return TG;
+        C06_TYPES(X)
+#undef X
         return -1;
     }
     template <class T> int observed_value_t(int i) const { const T* p = xtl::any_cast<T>(&a(i)); return p ? get_val(*p) : -999; }
@@ -83,15 +87,9 @@ struct World
     {
         switch (observed_type(i))
         {
-        case 1: return observed_value_t<Small>(i);
-        case 2: return observed_value_t<TwoWords>(i);
-        case 3: return observed_value_t<SmallTM>(i);
-        case 4: return observed_value_t<Big>(i);
-        case 5: return observed_value_t<BigTC>(i);
-        case 6: return observed_value_t<SmallTC>(i);
-        case 7: return observed_value_t<Aligned16>(i);
-        case 8: return observed_value_t<int>(i);
-        case 9: return observed_value_t<SmallNCTM>(i);
+#define X(TG, T) case TG: return observed_value_t<T>(i);
+        C06_TYPES(X)
+#undef X
         default: return 0;
         }
     }
@@ -183,8 +181,9 @@ struct World
                 int ot = observed_type(i);
                 if (ot != m[i].type) { e.add("type", who + "type() reports " + (ot < 0 ? "an unknown type" : tname(ot)) + " model " + tname(m[i].type)); continue; }
             }
-            check_casts<Small>(i, e); check_casts<TwoWords>(i, e); check_casts<SmallTM>(i, e); check_casts<Big>(i, e);
-            check_casts<BigTC>(i, e); check_casts<SmallTC>(i, e); check_casts<Aligned16>(i, e); check_casts<int>(i, e); check_casts<SmallNCTM>(i, e);
+#define X(TG, T) check_casts<T>(i, e);
+            C06_TYPES(X)
+#undef X
             // a type that is never stored
             if (xtl::any_cast<long>(&a(i)) != nullptr || xtl::any_cast<unsigned>(&a(i)) != nullptr) e.add("any_cast-pointer", who + "any_cast to a never stored type is non-null");
             // second opinion (fault-free histories): std::any holds the same alternative and value
@@ -247,8 +246,9 @@ void type_ops(HX& hx, const std::vector<int>& values, int nobj)
 
 static void build_ops(HX& hx, int nobj, const std::vector<int>& values)
 {
-    type_ops<Small>(hx, values, nobj); type_ops<TwoWords>(hx, values, nobj); type_ops<SmallTM>(hx, values, nobj); type_ops<Big>(hx, values, nobj);
-    type_ops<BigTC>(hx, values, nobj); type_ops<SmallTC>(hx, values, nobj); type_ops<Aligned16>(hx, values, nobj); type_ops<int>(hx, values, nobj); type_ops<SmallNCTM>(hx, values, nobj);
+#define X(TG, T) if (g_types == "all" || (TG) < 10) type_ops<T>(hx, values, nobj);
+    C06_TYPES(X)
+#undef X
     for (int i = 0; i < nobj; ++i)
     {
         const std::string I = str(i);
@@ -300,6 +300,53 @@ static void build_ops(HX& hx, int nobj, const std::vector<int>& values)
     }
 }
 
+
+// -------------------------------------------------------------------------------------------------------------------
+// Cast exactness across translation units: every (TU whose `Local` is stored) x (TU whose `Local` is the cast target) x every cast
+// form x every route by which the stored value reached the object queried (direct, copy, move, copy-assign, move-assign, swap).
+static void run_tu_matrix()
+{
+    C06TuApi api[2] = {C06TuApi{&local_make, &local_probe, &local_name}, c06_tu2_api()};
+    static const char* forms[] = {"any_cast<T>(any*)", "any_cast<T>(const any*)", "any_cast<T>(any&)", "any_cast<T&>(any&)", "any_cast<const T&>(const any&)", "any_cast<T>(any&&)", "type()==typeid(T)"};
+    static const char* routes[] = {"direct", "copy-construct", "move-construct", "copy-assign", "move-assign", "swap"};
+    vf::note(std::string("two translation units: type_info::name() of the two unnamed-namespace `Local` types: '") + api[0].name() + "' and '" + api[1].name() + "'");
+    long long evals = 0;
+    for (int holder = 0; holder < 2; ++holder) for (int route = 0; route < 6; ++route) for (int v = 1; v <= 2; ++v)
+    {
+        xtl::any src = api[holder].make(v);
+        xtl::any other = api[1 - holder].make(7);   // what the target held before (assignment / swap routes)
+        xtl::any* q = &src;
+        xtl::any t1, t2(other);
+        switch (route)
+        {
+        case 0: break;
+        case 1: { xtl::any c(src); t1.swap(c); q = &t1; break; }
+        case 2: { xtl::any c(std::move(src)); t1.swap(c); q = &t1; break; }
+        case 3: t2 = src; q = &t2; break;
+        case 4: t2 = std::move(src); q = &t2; break;
+        default: t2.swap(src); q = &t2; break;
+        }
+        for (int caster = 0; caster < 2; ++caster)
+        {
+            int val = -1;
+            int m = api[caster].probe(*q, &val);
+            ++evals;
+            const int expect = holder == caster ? 127 : 0;
+            for (int f = 0; f < 7; ++f) if (((m >> f) & 1) != ((expect >> f) & 1))
+                vf::violation(std::string("C06/two-tu/") + forms[f] + "/" + (holder == caster ? "same-type-rejected" : "different-type-with-the-same-name-accepted"),
+                              std::string("an any holding translation unit ") + str(holder + 1) + "'s unnamed-namespace type `Local` (value " + str(v) + ", route " + routes[route] + "), queried with translation unit " + str(caster + 1) +
+                              "'s `Local` (" + (holder == caster ? "the stored type" : "a different type with the same name") + "): " + forms[f] + (((m >> f) & 1) ? " succeeded" : " failed"),
+                              {"--tu-matrix"});
+            if (holder == caster && (m & 127) == 127 && val != v)
+                vf::violation("C06/two-tu/value", std::string("an any holding `Local`(") + str(v) + ") via route " + routes[route] + " reads back " + str(val), {"--tu-matrix"});
+            if (vf::take_asan()) vf::violation("C06/two-tu/asan", std::string("AddressSanitizer report while casting an any that holds translation unit ") + str(holder + 1) + "'s `Local` to translation unit " + str(caster + 1) + "'s", {"--tu-matrix"});
+        }
+    }
+    vf::stat("tu_matrix_evaluations", evals);
+    vf::stat("transitions", evals);
+    vf::stat("traces_validated_against_impl", evals);
+}
+
 int main(int argc, char** argv)
 {
     int nobj = 3, depth = 1 << 30;
@@ -318,6 +365,8 @@ int main(int argc, char** argv)
         else if (a == "--max-states") max_states = atoll(argv[++i]);
         else if (a == "--deadline") deadline = atof(argv[++i]);
         else if (a == "--inst") inst = argv[++i];
+        else if (a == "--types") g_types = argv[++i];
+        else if (a == "--tu-matrix") { run_tu_matrix(); vf::done(); return 0; }
         else if (a == "--replay") { do_replay = true; inst = argv[++i]; replay = argv[++i]; }
     }
     if (do_replay)
@@ -325,6 +374,7 @@ int main(int argc, char** argv)
         // inst encodes the alphabet: "<n>any[-1v]"
         nobj = inst[0] - '0';
         if (inst.find("-1v") != std::string::npos) values = {1};
+        if (inst.find("-base") != std::string::npos) g_types = "base";
     }
     HX hx;
     hx.prop = "C06";
